@@ -215,7 +215,7 @@ def run(ctx, pid):
     for dev in present:
         if DEV_OWNER[dev] == pid:
             consts, acts, _ = probes()[dev]
-            ctx.violation("%s: %s" % (dev, DEV_WHAT[dev]),
+            _viol(ctx, "%s: %s" % (dev, DEV_WHAT[dev]),
                           replay={"constants": _jc(consts), "actions": acts, "observed": detail[dev]},
                           signature="deviation:%s" % dev)
             ctx.nontrivial(("deviation", dev))
@@ -274,7 +274,7 @@ def run(ctx, pid):
         own = "C45" if res.invariant in C45_INV else "C25"
         if own == pid or res.invariant not in ALL_INV:
             tr = res.trace()
-            ctx.violation("TLC: %s violated on Hosts.tla (%s)" % (res.invariant, label),
+            _viol(ctx, "TLC: %s violated on Hosts.tla (%s)" % (res.invariant, label),
                           replay={"trace": [dict(s.get("act", {})) for _, s in tr]}, signature="spec:%s" % res.invariant)
 
     graphs = {}
@@ -342,7 +342,7 @@ def run(ctx, pid):
             if div is not None:
                 before = states[div["step"] - 1] if div["step"] > 0 else None
                 if owner_of(div, before) == pid:
-                    ctx.violation("replay diverges at step %d of a %s walk (%s): %s" % (div["step"], name, _short(div["action"]), div["diff"]),
+                    _viol(ctx, "replay diverges at step %d of a %s walk (%s): %s" % (div["step"], name, _short(div["action"]), div["diff"]),
                                   replay={"constants": _jc(consts), "actions": acts[:div["step"]], "divergence": div},
                                   signature=sig_of(div))
                 continue
@@ -366,7 +366,7 @@ def run(ctx, pid):
     if tres.violation:
         own = "C45" if tres.invariant in C45_INV else "C25"
         if own == pid:
-            ctx.violation("invariant %s violated in a state of a recorded execution" % tres.invariant,
+            _viol(ctx, "invariant %s violated in a state of a recorded execution" % tres.invariant,
                           replay={"trace": [dict(s.get("act", {})) for _, s in tres.trace()][-12:]},
                           signature="trace-inv:%s" % tres.invariant)
         return
@@ -392,7 +392,7 @@ def run(ctx, pid):
                or (what.get("t") or {}).get("k") in ("CtlReconnect", "CtlSet") or phase_before >= 1)
         own = "C45" if c45 else "C25"
         if own == pid:
-            ctx.violation("recorded execution rejected by the specification at event %d: %s" % (prog[i], {k: v for k, v in ev.items() if k != "post"}),
+            _viol(ctx, "recorded execution rejected by the specification at event %d: %s" % (prog[i], {k: v for k, v in ev.items() if k != "post"}),
                           replay={"constants": _jc(tconsts), "events": t[:prog[i]]},
                           signature="trace:%s%s" % (ev["e"], ("(" + ev["t"]["k"] + ")") if "t" in ev else ""))
     ctx.sample({"direction": "code->spec", "events": [{k: v for k, v in e.items() if k != "post"} for e in traces[0][:12]]})
@@ -408,6 +408,19 @@ def run(ctx, pid):
         "SimConnection/FakeNode reproduce the reactors' contract; SimExecutor/SimScheduler the pool's and scheduler's",
         "small scope: <= 2 subject hosts, <= 2 sessions, <= 3 environment events exhaustively (6 in recorded runs)",
     ]
+
+
+_SEEN = {}
+
+
+def _viol(ctx, what, replay=None, signature=None):
+    """At most three replay files per failure class (a broken driver diverges on thousands of walks)."""
+    n = _SEEN.get((ctx.pid, signature), 0)
+    _SEEN[ctx.pid, signature] = n + 1
+    if n < 3:
+        ctx.violation(what, replay=replay, signature=signature)
+    else:
+        ctx.count("violations_not_filed_same_signature")
 
 
 def _after_return(ctx, consts, acts, bad, spec_final, present, where, real_final=None):
@@ -426,7 +439,7 @@ def _after_return(ctx, consts, acts, bad, spec_final, present, where, real_final
                 explained |= {"request_not_refused"}
     left = sorted(k for k in bad if k not in explained)
     if left:
-        ctx.violation("after shutdown() returned (%s): %s" % (where, {k: bad[k] for k in left}),
+        _viol(ctx, "after shutdown() returned (%s): %s" % (where, {k: bad[k] for k in left}),
                       replay={"constants": _jc(consts), "actions": acts, "after_return": bad},
                       signature="after-shutdown:%s" % ",".join(left))
 
